@@ -238,6 +238,15 @@ pub fn check(sh: &Shared, c: &Case) -> Check {
 
     // 4. the same laws on the lexical model
     let lexical = lex_of_nd(fi, &c.v, &c.tape).to_lex();
+    // the lexical formatter's text (numbers / fixed stamps also in their other legal spellings,
+    // e.g. `1.0`, `.5`, `+5`) is classified the same way by both parsers
+    {
+        let text2 = guard(|| fmts::l(fi).format_narsese(&lexical)).map_err(|p| Failure::new("format:panic", p))?;
+        let (ke, kl, _, _) = parsed_kinds(fi, &text2)?;
+        if ke != want_kind || kl != want_kind {
+            fail!("classify:kind", "text {text2:?} (lexical formatter)\nvalue kind {want_kind}, enum parser says {ke}, lexical parser says {kl} (0 term, 1 sentence, 2 task)");
+        }
+    }
     let lk = kind_of_lex(&lexical);
     if lk != want_kind {
         fail!("harness/lexical-kind", "lexical mirror has kind {lk}");
@@ -349,7 +358,7 @@ pub fn check_fragment(sh: &Shared, c: &FragCase) -> Check {
 }
 
 pub fn strategy_fragment() -> BoxedStrategy<FragCase> {
-    gen::fmt_and(|fi| (gen::task_with(gen::term(gen::TermOpts { depth: 2, size: 8, deep: false, ..gen::TermOpts::main(fi) })), 0u8..32).boxed())
+    gen::fmt_and(|fi| (gen::task_with(gen::term(gen::TermOpts { depth: 2, size: 8, deep_max: 0, ..gen::TermOpts::main(fi) })), 0u8..32).boxed())
         .prop_map(|(fi, (t, mask))| FragCase { fi, t, mask })
         .boxed()
 }
